@@ -51,10 +51,10 @@ func (nullSink) SessionOpened(int)         {}
 
 type recListener struct{}
 
-func (recListener) OnOpen(getty.Session) error         { return nil }
-func (recListener) OnClose(getty.Session)              {}
-func (recListener) OnError(getty.Session, error)       {}
-func (recListener) OnCron(getty.Session)               {}
+func (recListener) OnOpen(getty.Session) error           { return nil }
+func (recListener) OnClose(getty.Session)                {}
+func (recListener) OnError(getty.Session, error)         {}
+func (recListener) OnCron(getty.Session)                 {}
 func (recListener) OnMessage(getty.Session, interface{}) {}
 
 var c13Strings = []string{"", "a", "xid", "10.0.0.7:8091:1001", "héllo wörld ✓", "k=v;k2=v2", "0123456789abcdef0123456789abcdef"}
@@ -270,6 +270,7 @@ func runC13(t *testing.T, seed uint64, planJSON []byte, tier string) (res *Resul
 		h := &sgetty.RpcPackageHandler{}
 		net := simnet.New(sim, simnet.Config{}, nullSink{}, h, recListener{})
 		net.Pool = nil
+		net.InlineRead = true
 		var got []c13Got
 		spin := ""
 		net.OnDispatch = func(sess int, pkg interface{}, consumed int) { got = append(got, c13Got{pkg, consumed}) }
